@@ -72,6 +72,16 @@ tmSaneValues(struct tm *tm)
         return 0;
     if (tm->tm_mon < 0 || tm->tm_mon > 11)
         return 0;
+    // reject days that do not exist in the named month (timegm() would
+    // silently move them into the following month)
+    static const int monthDays[12] = {31, 29, 31, 30, 31, 30, 31, 31, 30, 31, 30, 31};
+    if (tm->tm_mday > monthDays[tm->tm_mon])
+        return 0;
+    if (tm->tm_mon == 1 && tm->tm_mday == 29) {
+        const long year = 1900L + tm->tm_year;
+        if (year % 4 != 0 || (year % 100 == 0 && year % 400 != 0))
+            return 0;
+    }
     return 1;
 }
 
